@@ -32,6 +32,9 @@ ARM_FIELDS = {
 }
 
 
+from . import shared
+
+
 def check(repo: Repo, R) -> None:
     value_dispatch(repo, R)
     none_skipped(repo, R)
@@ -59,20 +62,19 @@ def value_dispatch(repo: Repo, R):
             expanded.add(m)
     handled = isinstance_handled(repo, fi, subject=v)
     missing = sorted(expanded - handled)
-    falls = au.raises(fi.node.body)
+    falls = au.dispatch_default_raises(fi.node, v)
     R.check(not missing and falls, rule, key_of(fi, "members"), fi.site, f"ToVlsirParam = {sorted(expanded)}; export_param_value handles {sorted(handled)}" + (f"; MISSING {missing}" if missing else "") + f"; anything else raises: {falls}",
             why="a parameter of an accepted type raises on export, or an unknown type is exported as an empty value")
     order: List[str] = []
-    for st in fi.node.body:
-        if isinstance(st, ast.If):
-            r = au.isinstance_classes(st.test) if isinstance(st.test, ast.Call) else None
-            if r and ast.unparse(r[0]) == v:
-                cls = ast.unparse(r[1][0])
+    for st, classes, arm in au.dispatch_arms(fi.node, v):
+        if True:
+            if True:
+                cls = ast.unparse(classes[0])
                 cls = "None" if cls == "type(None)" else cls
                 order.append(cls)
                 if cls in ARM_FIELDS:
-                    rets = [n for n in ast.walk(st) if isinstance(n, ast.Return)]
-                    got = ast.unparse(rets[-1].value) if rets else None
+                    rets = [n for b in arm for n in ast.walk(b) if isinstance(n, ast.Return)]
+                    got = shared.prov_text(fi.node, rets[-1].value) if rets else None
                     want = ARM_FIELDS[cls].replace("val", v)
                     R.check(got == want, rule, key_of(fi, cls), fi.at(st), f"{cls} -> `{got}`; expected `{want}`",
                             why=f"a {cls}-valued parameter is exported through the wrong variant or with another value")
@@ -80,7 +82,7 @@ def value_dispatch(repo: Repo, R):
     def before(a, b):
         return a in order and b in order and order.index(a) < order.index(b)
     ok = before("None", "str") and (("Enum" not in order) or before("str", "Enum") or before("Enum", "str"))
-    enum_guard = any(isinstance(n, ast.If) and ast.unparse(n.test) == f"not isinstance({v}.value, str)" and au.raises(n.body) for n in ast.walk(fi.node))
+    enum_guard = shared.fails_unless(fi.node, f"isinstance({v}.value, str)") is not None
     R.check(enum_guard, rule, key_of(fi, "enum-str-only"), fi.site, f"non-string enum values are rejected: {enum_guard}", why="an int-valued enum is exported as its repr")
     # name-by-name dictionaries
     fd = repo.func(F_EXPORT, "dictify_params")
@@ -90,12 +92,15 @@ def value_dispatch(repo: Repo, R):
     R.check(ok1 and ok2, rule, key_of(fd), fd.site, f"dictify_params maps every paramclass field to its own value ({ok1}); dicts pass through ({ok2})", why="a parameter is exported under another parameter's name")
     fx = repo.func(F_EXPORT, "ProtoExporter.export_instance")
     loop = [n for n in au.walk_no_nested(fx.node) if isinstance(n, ast.For) and ast.unparse(n.iter) == "params.items()"]
-    ok = len(loop) == 1 and bool(pat.find("vlsir.Param(name=key, value=export_param_value(val))", loop[0])) and bool(pat.find("pinst.parameters.append($P)", loop[0]))
+    ok = len(loop) == 1 and isinstance(loop[0].target, ast.Tuple) and len(loop[0].target.elts) == 2 and bool(shared.calls_matching(loop[0], "pinst.parameters.append(vlsir.Param(name={}, value=export_param_value({})))".format(*[ast.unparse(x) for x in loop[0].target.elts])))
     R.check(ok, rule, key_of(fx, "param-loop"), fx.site, f"every (name, value) pair becomes Param(name=name, value=export_param_value(value)) on the instance: {ok}", why="parameters are dropped or mis-named on the instance")
     # which dictionary for which target
-    phys = any(isinstance(n, ast.If) and ast.unparse(n.test) == "call.prim.primtype == PrimitiveType.PHYSICAL" and bool(pat.find("params = dictify_params(call.params)", n)) for n in au.walk_no_nested(fx.node))
-    ideal = any(isinstance(n, ast.If) and ast.unparse(n.test) == "call.prim.primtype == PrimitiveType.IDEAL" and bool(pat.find("params = export_primitive_params(call.params)", n)) for n in au.walk_no_nested(fx.node))
-    ext = any(isinstance(n, ast.If) and ast.unparse(n.test) == "isinstance(inst.of, ExternalModuleCall)" and bool(pat.find("params = dictify_params(call.params)", n)) for n in au.walk_no_nested(fx.node))
+    pv = ast.unparse(loop[0].iter).split(".")[0] if loop else "params"
+    def _src(cond, call):
+        return any(shared.cond_match(fx.node, c, cond, True, use_prov=False) for c, _b in pat.find(f"{pv} = {call}(inst.of.params)", fx.node))
+    phys = _src("inst.of.prim.primtype == PrimitiveType.PHYSICAL", "dictify_params")
+    ideal = _src("inst.of.prim.primtype == PrimitiveType.IDEAL", "export_primitive_params")
+    ext = _src("isinstance(inst.of, ExternalModuleCall)", "dictify_params")
     R.check(phys and ideal and ext, rule, key_of(fx, "param-source"), fx.site, f"physical primitives and external modules export their parameters name by name ({phys}, {ext}); ideal primitives through the renaming table ({ideal})",
             why="parameters of one target kind are exported through another kind's mapping")
 
@@ -106,8 +111,11 @@ def none_skipped(repo: Repo, R):
     ok = False
     for lp in au.walk_no_nested(fx.node):
         if isinstance(lp, ast.For) and ast.unparse(lp.iter) == "params.items()":
-            first = lp.body[0]
-            ok = isinstance(first, ast.If) and ast.unparse(first.test) in ("val is None",) and isinstance(first.body[-1], ast.Continue)
+            if isinstance(lp.target, ast.Tuple) and len(lp.target.elts) == 2:
+                vv = ast.unparse(lp.target.elts[1])
+                apps = pat.find("pinst.parameters.append($P)", lp)
+                # every export inside the loop runs only for values that are not None
+                ok = bool(apps) and all(shared.conds_imply(shared.path_conditions(fx.node, c), [(shared.parse_cond(f"{vv} is None"), False)]) is True for c, _b in apps)
     R.check(ok, rule, key_of(fx), fx.site, f"None-valued parameters are skipped before export: {ok}", why="a None parameter is exported as an empty Param (netlisted as a blank value)")
 
 
@@ -115,14 +123,17 @@ def prefix_total(repo: Repo, R):
     rule = "C13.3-prefix-table"
     members, fe, fi, emap, imap = c11.prefix_tables(repo)
     bad = [n for n, v in members.items() if emap.get(str(int(ast.literal_eval(v)))) != f"vlsir.SIPrefix.{n}"]
-    miss = any(isinstance(n, ast.If) and ast.unparse(n.test) == "pre.value not in map" and au.raises(n.body) for n in au.walk_no_nested(fe.node))
+    miss = shared.fails_unless(fe.node, "pre.value in $M") is not None
     R.check(not bad and len(members) == 21 and miss, rule, key_of(fe), fe.site, f"export_prefix: total over the {len(members)} prefixes, name preserving: {not bad}; an unknown prefix raises: {miss}", why="a prefixed value is exported with another prefix")
     fp = repo.func(F_EXPORT, "export_prefixed")
     a = fp.node.args.args[0].arg
-    intarm = any(isinstance(n, ast.If) and ast.unparse(n.test) == f"{a}.number == int({a}.number)" and ast.unparse(n.body[-1]) == f"return vlsir.Prefixed(int64_value=int({a}.number), prefix=prefix)" for n in au.walk_no_nested(fp.node))
-    last = fp.node.body[-1]
-    strarm = isinstance(last, ast.Return) and ast.unparse(last.value) == f"vlsir.Prefixed(string_value=str({a}.number), prefix=prefix)"
-    pre = bool(pat.find(f"prefix = export_prefix({a}.prefix)", fp.node))
+    INT = f"{a}.number == int({a}.number)"
+    prets = shared.returns_of(fp.node)
+    ints = [r for r in prets if shared.prov_text(fp.node, r.value) == f"vlsir.Prefixed(int64_value=int({a}.number), prefix=export_prefix({a}.prefix))"]
+    strs = [r for r in prets if shared.prov_text(fp.node, r.value) == f"vlsir.Prefixed(string_value=str({a}.number), prefix=export_prefix({a}.prefix))"]
+    intarm = len(ints) == 1 and shared.cond_match(fp.node, ints[0], INT, True)
+    strarm = len(strs) == 1 and shared.cond_match(fp.node, strs[0], INT, False) and len(prets) == 2
+    pre = intarm and strarm
     R.check(intarm and strarm and pre, rule, key_of(fp), fp.site, f"export_prefixed: integer-valued numbers as int64 ({intarm}), all others as their exact decimal string ({strarm}), with the number's own prefix ({pre})",
             why="non-integer prefixed values lose digits (or integers are truncated)")
 
@@ -218,7 +229,8 @@ def to_scalar_shape(repo: Repo, R):
     rule = "C13.6-to-scalar"
     fi = repo.func(F_SCALAR, "to_scalar")
     v = fi.node.args.args[0].arg
-    asis = any(isinstance(n, ast.If) and ast.unparse(n.test) == f"isinstance({v}, (Prefixed, Literal))" and ast.unparse(n.body[-1]) == f"return {v}" for n in au.walk_no_nested(fi.node))
+    srets = shared.returns_of(fi.node)
+    asis = any(ast.unparse(r.value) == v and shared.cond_match(fi.node, r, f"isinstance({v}, (Prefixed, Literal))", True, use_prov=False) for r in srets)
     strarm = False
     for n in au.walk_no_nested(fi.node):
         if isinstance(n, ast.If) and ast.unparse(n.test) == f"isinstance({v}, str)":
@@ -226,7 +238,7 @@ def to_scalar_shape(repo: Repo, R):
             if trys:
                 t = trys[0]
                 strarm = ast.unparse(t.body[-1]) == f"return Prefixed(number={v})" and len(t.handlers) == 1 and ast.unparse(t.handlers[0].body[-1]) == f"return Literal(text={v})"
-    last = fi.node.body[-1]
-    num = isinstance(last, ast.Return) and ast.unparse(last.value) == f"Prefixed(number={v})"
+    nums = [r for r in srets if ast.unparse(r.value) == f"Prefixed(number={v})" and shared.cond_match(fi.node, r, f"isinstance({v}, str)", False, use_prov=False) and shared.cond_match(fi.node, r, f"isinstance({v}, (Prefixed, Literal))", False, use_prov=False)]
+    num = len(nums) == 1
     R.check(asis and strarm and num, rule, key_of(fi), fi.site, f"to_scalar: Prefixed/Literal unchanged ({asis}); strings become a Prefixed if numeric, else a Literal with the same text ({strarm}); numbers become Prefixed(number=v) ({num})",
             why="a numeric string becomes a Literal (or another string), or the literal's text differs from what was given")
